@@ -79,6 +79,24 @@ Theorem failed_turn_error_no_cursor : forall leaks i minted o p,
   /\ r_trace r = [TEx p (insum (o_body o))].
 Proof. exact failed_turn. Qed.
 
+(* A turn that EMITS its data batch and THEN fails (returns an error or panics) is a failed turn like
+   any other — the Emit before the failure changes nothing: failed_turn_error_no_cursor and
+   producer_continuation_one_produce_cursor_on_its_own_batch apply to it (act_ok = act_fin = false). *)
+Theorem emit_then_fail_is_the_failed_turn : forall prod t t' f x,
+  t_act t = AEmitErr f -> t_act t' = AErr f ->
+  turn prod t x = turn prod t' x /\ act_ok (t_act t) = false /\ act_fin (t_act t) = false
+  /\ turn prod t x = TRErr (FExc (C04.exc_type f) (turn_exc_msg f) [] []).
+Proof. exact emit_then_fail. Qed.
+Example emit_then_panic_no_cursor_exchange_and_producer :
+  (exists r1 r2 r3, model (emit_panic_witness false) = [init_resp; r1; r2; r3]
+     /\ r_frames r1 = [FExc exc_runtime_error (C04.rpc_error_text exc_runtime_error (str "kaboom")) [] []]
+     /\ r_errhdr r1 = true /\ no_cursor r1 = true /\ r_frames r2 = r_frames r1 /\ no_cursor r2 = true
+     /\ r_status r3 = 400%Z)
+  /\ (exists r0 r1, model (emit_panic_witness true) = [r0; r1; r1; r1]
+       /\ r_frames r0 = [FExc exc_runtime_error (C04.rpc_error_text exc_runtime_error (str "kaboom")) [] []]
+       /\ no_cursor r0 = true /\ r_hascall r0 = false /\ r_status r1 = 400%Z).
+Proof. exact emit_panic_example. Qed.
+
 (* A cancel continuation: the cancel hook exactly once when the state has one (whatever
    the hook does), no Produce / Exchange, an empty stream, no cursor, nothing minted. *)
 Theorem cancel_hook_once_empty_stream_no_cursor : forall leaks i minted o p,
